@@ -304,8 +304,9 @@ def run_check(prop, tier, base_seed, jobs=None, replay_dir=None, max_runs=None, 
         'wall_s': round(wall_total, 2),
         'violations': len(replay_paths),
     }
-    os.makedirs(os.path.join(VERIF, 'evidence'), exist_ok=True)
-    with open(os.path.join(VERIF, 'evidence', prop.id + '.json'), 'w') as f:
+    evdir = os.environ.get('VERIF_EVIDENCE_DIR') or os.path.join(VERIF, 'evidence')   # mutant runs (tools/mutant.sh) write elsewhere
+    os.makedirs(evdir, exist_ok=True)
+    with open(os.path.join(evdir, prop.id + '.json'), 'w') as f:
         json.dump(ev, f, indent=1, sort_keys=True)
     shutil.rmtree(tmp, ignore_errors=True)
     for l in lines:
